@@ -868,3 +868,38 @@ M('C05', 'strict-equal-ordered-items', GEN, "        return x.keys() == y.keys()
 T('C05', 'twin-strict-equal-set-of-keys', GEN, "        return x.keys() == y.keys() and all(strict_equal(x[k], y[k]) for k in x)", "        return set(x) == set(y) and all(strict_equal(x[k], y[k]) for k in x)")
 M('C16', 'pprint-width-computed', PP, "    listr = pprint.pformat(li)", "    listr = pprint.pformat(li, width=MAXWIDTH - len(prefix))", 'R16.19')
 T('C16', 'twin-pprint-width-clamped', PP, "    listr = pprint.pformat(li)", "    listr = pprint.pformat(li, width=max(1, MAXWIDTH - len(prefix)))")
+
+# ---- batch-3 refactoring twins: statement forms of the status computation
+T('C08', 'twin-status-if-else-statement', APP, "    returncode = 1 if conflicted else 0\n", "    if conflicted:\n        returncode = 1\n    else:\n        returncode = 0\n")
+T('C08', 'twin-status-default-then-override', APP, "    returncode = 1 if conflicted else 0\n", "    returncode = 0\n    if conflicted:\n        returncode = 1\n")
+M('C08', 'status-if-else-statement-inverted', APP, "    returncode = 1 if conflicted else 0\n", "    if not conflicted:\n        returncode = 1\n    else:\n        returncode = 0\n", 'R08.1')
+M('C08', 'status-override-under-unrelated-test', APP, "    returncode = 1 if conflicted else 0\n", "    returncode = 0\n    if args.decisions:\n        returncode = 1\n", 'R08.1')
+
+# ---- batch-3: statement (loop) form of the attributes marker scan
+_MD_SCAN_OLD = """            if any('merge=jupyternotebook' in line.split()
+                   for line in f.read().splitlines()
+                   if not line.lstrip().startswith('#')):
+                # already written, nothing to do
+                return
+"""
+T('C18', 'twin-marker-scan-as-loop', 'nbdime/vcs/git/mergedriver.py', _MD_SCAN_OLD,
+  """            for line in f.read().splitlines():
+                if line.lstrip().startswith('#'):
+                    continue
+                if 'merge=jupyternotebook' in line.split():
+                    return
+""")
+M('C18', 'marker-scan-loop-without-comment-skip', 'nbdime/vcs/git/mergedriver.py', _MD_SCAN_OLD,
+  """            for line in f.read().splitlines():
+                if 'merge=jupyternotebook' in line:
+                    return
+""", 'R18.4')
+M('C18', 'marker-scan-loop-breaks-early', 'nbdime/vcs/git/mergedriver.py', _MD_SCAN_OLD,
+  """            for line in f.read().splitlines():
+                if line.lstrip().startswith('#'):
+                    continue
+                if not line.strip():
+                    break
+                if 'merge=jupyternotebook' in line.split():
+                    return
+""", 'R18.4')
